@@ -1,6 +1,7 @@
 package harness
 
 import (
+	"os"
 	"sort"
 	"testing"
 
@@ -10,13 +11,13 @@ import (
 // ---- generators for the key-engine properties ----
 
 func genC01(t *rapid.T) KeyCase {
-	d := genWorld(t, WorldOpts{Modes: allModes, MaxMappings: 3, Actions: allKeyActions, ActionProb: 70, KeyAxes: 2, Subs: 2, AxesVary: true, Twins: true})
+	d := genWorld(t, WorldOpts{Modes: allModes, MaxMappings: 3, Actions: allKeyActions, ActionProb: 70, KeyAxes: 2, Subs: 2, AxesVary: true, Twins: true, Overlap: true})
 	steps := genHistory(t, d, HistOpts{MaxLen: 60, StateBias: 40, BurstMax: 4, Axes: true, Repeats: true, MidiIn: true, UnmappedKey: true})
 	return KeyCase{D: d, Steps: steps, NoLogs: rapid.IntRange(0, 9).Draw(t, "nologs") > 0}
 }
 
 func genC02(t *rapid.T) KeyCase {
-	d := genWorld(t, WorldOpts{Modes: allModes, MaxMappings: 3, Actions: allKeyActions[:10], ActionProb: 80, Subs: 2, Twins: true})
+	d := genWorld(t, WorldOpts{Modes: allModes, MaxMappings: 3, Actions: allKeyActions[:10], ActionProb: 80, Subs: 2, Twins: true, Overlap: true})
 	steps := genHistory(t, d, HistOpts{MaxLen: 50, StateBias: 70, BurstMax: 3, Repeats: true, UnmappedKey: true})
 	return KeyCase{D: d, Steps: steps, NoLogs: true}
 }
@@ -28,7 +29,7 @@ func genC03(t *rapid.T) KeyCase {
 }
 
 func genC04(t *rapid.T) KeyCase {
-	d := genWorld(t, WorldOpts{Modes: allModes, MaxMappings: 3, Actions: allKeyActions[:10], ActionProb: 85, WideDefaults: true, Subs: 2, Velocity0: true})
+	d := genWorld(t, WorldOpts{Modes: allModes, MaxMappings: 3, Actions: allKeyActions[:10], ActionProb: 85, WideDefaults: true, Subs: 2, Velocity0: true, Overlap: true})
 	steps := genHistory(t, d, HistOpts{MaxLen: 60, StateBias: 30, BurstMax: 14, NoPanic: true})
 	steps = boundTransposition(d, steps)
 	return KeyCase{D: d, Steps: steps, NoLogs: true}
@@ -52,7 +53,7 @@ func boundTransposition(d *Desc, steps []Step) []Step {
 
 func genC13(t *rapid.T) C13Case {
 	acts := append(append([]string{}, stateActions...), "panic")
-	d := genWorld(t, WorldOpts{Modes: allModes, MaxMappings: 2, Actions: acts, ActionProb: 60, Subs: 1})
+	d := genWorld(t, WorldOpts{Modes: allModes, MaxMappings: 2, Actions: acts, ActionProb: 60, Subs: 1, Overlap: true})
 	if _, ok := panicCode(d); !ok {
 		// construction: always have a panic key
 		used := map[uint16]bool{}
@@ -144,8 +145,22 @@ func genC14(t *rapid.T) KeyCase {
 }
 
 func TestC01(t *testing.T) { ReplayOrRapid(t, NewRun(t, "C01"), checkC01, genC01) }
-func TestC02(t *testing.T) { ReplayOrRapid(t, NewRun(t, "C02"), checkC02, genC02) }
-func TestC03(t *testing.T) { ReplayOrRapid(t, NewRun(t, "C03"), checkC03, genC03) }
-func TestC04(t *testing.T) { ReplayOrRapid(t, NewRun(t, "C04"), checkC04, genC04) }
-func TestC13(t *testing.T) { ReplayOrRapid(t, NewRun(t, "C13"), checkC13, genC13) }
-func TestC14(t *testing.T) { ReplayOrRapid(t, NewRun(t, "C14"), checkC14, genC14) }
+
+// TestC01BusySink: the C01 cases with a receiver that is busy when the device disconnects: the output queue is full for
+// 0.6-0.9 s (quick; up to 5.2 s thorough) and is read again afterwards. Processing may end late, but not before every
+// sounding note was released, and nothing may be emitted after it ended.
+func genC01BusySink(t *rapid.T) KeyCase {
+	c := genC01(t)
+	if os.Getenv("VERIF_TIER") == "thorough" {
+		c.BusySinkMs = rapid.SampledFrom([]int{600, 1100, 2100, 5200}).Draw(t, "busySinkMs")
+	} else {
+		c.BusySinkMs = rapid.IntRange(600, 900).Draw(t, "busySinkMs")
+	}
+	return c
+}
+func TestC01BusySink(t *testing.T) { ReplayOrRapid(t, NewRun(t, "C01"), checkC01, genC01BusySink) }
+func TestC02(t *testing.T)         { ReplayOrRapid(t, NewRun(t, "C02"), checkC02, genC02) }
+func TestC03(t *testing.T)         { ReplayOrRapid(t, NewRun(t, "C03"), checkC03, genC03) }
+func TestC04(t *testing.T)         { ReplayOrRapid(t, NewRun(t, "C04"), checkC04, genC04) }
+func TestC13(t *testing.T)         { ReplayOrRapid(t, NewRun(t, "C13"), checkC13, genC13) }
+func TestC14(t *testing.T)         { ReplayOrRapid(t, NewRun(t, "C14"), checkC14, genC14) }
